@@ -23,6 +23,7 @@ import random
 import re
 import subprocess
 import sys
+import threading
 import time
 import zipfile
 from concurrent.futures import ThreadPoolExecutor
@@ -636,6 +637,30 @@ def _validate(ctx, observed, parallel):
     return summ
 
 
+SLICE = 25000
+
+
+def _replay_validate(ctx, cases, known, tag):
+    """observe + validate in slices (memory stays bounded), summaries merged."""
+    total = None
+    for k in range(0, len(cases), SLICE):
+        part = cases[k:k + SLICE]
+        obs = _observe(ctx, part, known, f"{tag}-{k}", nproc=2 if not ctx.thorough else 4)
+        s1 = _validate(ctx, obs, 1 if not ctx.thorough else 3)
+        del obs
+        if total is None:
+            total = s1
+            continue
+        for key in ("n", "distinct", "generated", "wall"):
+            total[key] += s1[key]
+        total["nontrivial"] |= s1["nontrivial"]
+        for clause, n in s1["counts"].items():
+            have = total["counts"].get(clause, 0)
+            total["counts"][clause] = have + n
+            total["rejected"] += [x for x in s1["rejected"] if x[0] == clause][:max(0, 6 - have)]
+    return total if total is not None else _validate(ctx, [], 1)
+
+
 def _judge(ctx, summ, label, counts):
     """turn TLC's rejections into violations (at most 6 per clause are written out, all are counted)."""
     ev, v = ctx.ev, ctx.v
@@ -682,6 +707,10 @@ def run(ctx):
         if r.violated:
             return part, r, None
         path = dump if dump.exists() else Path(str(dump) + ".dump")
+        with stage:                 # bounds the memory: few parts hold their trees / observations at a time
+            return enum2(parts, part, path, r)
+
+    def enum2(parts, part, path, r):
         cases = [{"id": "", "tree": plain(s["tree"])} for s in iter_dump(path)]
         cases.sort(key=lambda c: json.dumps(c["tree"], sort_keys=True))
         for k, c in enumerate(cases):
@@ -690,8 +719,7 @@ def run(ctx):
             raise MachineryError(f"dump of {part} has {len(cases)} states, TLC reported {r.distinct}")
         path.unlink(missing_ok=True)
         ctx.log(f"{part}: {len(cases)} trees enumerated by TLC ({r.wall_s:.0f}s)")
-        obs = _observe(ctx, cases, known, part, nproc=2 if not ctx.thorough else 4)
-        return part, r, _validate(ctx, obs, 1 if not ctx.thorough else 3)
+        return part, r, _replay_validate(ctx, cases, known, part)
 
     def sens(item):
         dev, part, inv = item
@@ -699,6 +727,7 @@ def run(ctx):
                     timeout=900, expect_fail=True)
         return item, r
 
+    stage = threading.Semaphore(3 if ctx.thorough else 5)
     sens_items = SENSITIVITY if ctx.thorough else SENSITIVITY[:2]
     parts_list = PARTS_THOROUGH if ctx.thorough else PARTS_QUICK
     pool = ThreadPoolExecutor(max_workers=len(parts_list) + len(sens_items))
@@ -809,8 +838,9 @@ def _simulate(ctx, known, counts):
     if not cases:
         raise MachineryError("tlc -simulate produced no behaviour files")
     ctx.log(f"simulate: {len(cases)} distinct deeper trees")
-    obs = _observe(ctx, cases, known, "sim")
-    return _judge(ctx, _validate(ctx, obs, 4), "tlc -simulate trees", counts)
+    obs = None
+    del obs
+    return _judge(ctx, _replay_validate(ctx, cases, known, "sim"), "tlc -simulate trees", counts)
 
 
 if __name__ == "__main__":
